@@ -76,13 +76,13 @@ def _basis(ns, k, seed):
 
 
 @model('linear')
-def _m_linear(k, seed, affine):
-    """Poisson model linear (affine) in its k parameters: M(p) = [B0 +] sum p_j B_j.  Ignores pts."""
+def _m_linear(k, seed, affine, offset=1.0):
+    """Poisson model linear (affine) in its k parameters: M(p) = [offset*B0 +] sum p_j B_j."""
     import dadi
 
     def f(params, ns, pts):
         B = _basis(tuple(ns), k + 1, seed)
-        val = B[0] * (1.0 if affine else 0.0)
+        val = B[0] * (float(offset) if affine else 0.0)
         for j in range(k):
             val = val + params[j] * B[j + 1]
         val = val * (1.0 + 0.3 / float(np.sum(pts)))      # depends on the grid setting, as real models do
